@@ -252,6 +252,11 @@ class Evaluator:
         return True
 
     def eq(self, a, b):
+        import enum
+        if isinstance(a, enum.Enum):
+            a = a.value
+        if isinstance(b, enum.Enum):
+            b = b.value
         if isinstance(a, bool) or isinstance(b, bool):
             return bool(a) == bool(b)
         return a == b
@@ -400,6 +405,8 @@ class Evaluator:
             if name == 'pack2v':
                 import struct
                 return struct.pack('>H', vals[0]) if 0 <= vals[0] < 65536 else None
+            if name in self.spec_funcs.get('__concrete__', {}):
+                return self.spec_funcs['__concrete__'][name](*vals)
             if name in self.spec_funcs:
                 params, ret, body = self.spec_funcs[name]
                 if callable(body):
